@@ -1181,6 +1181,27 @@ pub fn run(rng: &mut Rng, thorough: bool, _corpus: &[String]) -> Run {
         run.count("directed:tcp-icmp-and-handshake-together");
         open_loop(&mut run, &cfg, 0, 400, false, &mut plan, rng);
     }
+    // TCP: an early probe passes tcp_connect_timeout in the very poll in which the target completes the handshake of
+    // a later probe (expiry and completion in one call of recv_probe): the completed probe — not a neighbour — is
+    // reported, nothing panics (C16 / C09 / C02)
+    for (v6, complete_ttl) in [(false, 3u8), (true, 6), (false, 6), (false, 4)] {
+        let mut cfg = gen_cfg(rng, 't', v6);
+        cfg.pd = Pd::Dest(80); cfg.first = 1; cfg.max = 6; cfg.inflight = 24; cfg.max_rounds = Some(3);
+        cfg.min_round = 3000 * MS; cfg.max_round = 3000 * MS; cfg.grace = 100 * MS; cfg.tcp_timeout = 500 * MS;
+        let dst = cfg.dst;
+        let mut plan = move |v: &View<'_>, _rng: &mut Rng| {
+            let mut env: Vec<SockEnv> = v.live.iter().map(|_| SockEnv::NotWritable).collect();
+            // the probe with ttl `complete_ttl` completes in the poll after the one in which it was sent
+            if let Some((p, _)) = v.outstanding.iter().find(|(p, _)| p.ttl.0 == complete_ttl) {
+                if let Some(i) = v.live.iter().position(|l| l.sp == p.src_port.0 && l.dp == p.dest_port.0) {
+                    if v.now.saturating_sub(v.live[i].start) >= 200 * MS { env[i] = SockEnv::Connected(Some(dst)); }
+                }
+            }
+            Plan { injs: vec![], dt: 200 * MS, readable: Poll::No, dgram: Dgram::None, env, answers: None }
+        };
+        run.count("directed:tcp-expiry-and-completion-in-one-poll");
+        open_loop(&mut run, &cfg, 0, 60, false, &mut plan, rng);
+    }
     // an outage: a target that never answers (beyond max-ttl), routers that answer for a while and then fall silent
     // for the rest of the trace — the rounds report a shorter and shorter path, the hops that were probed and
     // answered before must stay in the table with their totals (C01 / C10)
